@@ -1,4 +1,7 @@
-use super::{Namespace, TryFromNode, doc::RustDocument};
+use super::{
+    Namespace, TryFromNode,
+    doc::{ComponentKind, RustDocument},
+};
 use crate::{
     error::{WriterError, WriterResult},
     reader::WriteXml,
@@ -96,7 +99,14 @@ impl<'n> TryFromNode<'n> for Field {
                 .and_then(|ns| doc.find_namespace_by_abbreviation(ns))
                 .cloned();
 
-            let ref_node = doc.find_node_by_xml_name(&node, xml_name, namespace.as_deref());
+            // an element reference names a global element; group and attribute references are
+            // looked up among all global components
+            let kind = if node.tag_name().name() == "element" {
+                ComponentKind::Element
+            } else {
+                ComponentKind::Any
+            };
+            let ref_node = doc.find_node_by_xml_name(&node, xml_name, namespace.as_deref(), kind);
             let ref_node = ref_node
                 .as_ref()
                 .ok_or_else(|| WriterError::NodeNotFound(ref_name.to_string()))?;
